@@ -237,6 +237,9 @@ def run(ctx):
             "structures starting with C), create_guesses called with limit None, 1, total-1, total, total+1 and a random inner "
             "value; non-trivial = has an upper-casing mask, two alpha words, a Markov level or more than one guess; distinct by "
             "the groups' values")
+    # second tie to the source (translator): name the broken equality if the build lost ExpandGenProofs
+    import expand_tie
+    corr.append(expand_tie.obligation())
     return {"evaluations": dist["calls"], "distinct_nontrivial": nontrivial, "rule": rule, "samples": samples,
             "corr": corr, "violations": vio, "dist": dist}
 
